@@ -356,10 +356,16 @@ def r2(ctx):
 def _present(v):
     """For guarded encoder slots: the alternative that carries the value (not the absent filler)."""
     if isinstance(v, B.Choice):
-        for c, x in v.alts:
+        def absent(c):
+            if c in (B.TRUE, B.FALSE):
+                return False
+            return any(l[0] == "isnone" or (l[0] == "not" and l[1][0] == "truthy") for l in B._lits(c))
+
+        cand = [(c, x) for c, x in v.alts if not absent(c)] or v.alts
+        for c, x in cand:
             if isinstance(x, (B.BV, B.Lin)) and not (isinstance(x, B.BV) and x.is_const()):
                 return _present(x)
-        return v.alts[0][1]
+        return cand[0][1]
     return v
 
 
